@@ -1,7 +1,7 @@
 (* C13: naive/aware mixing is rejected up front; aware schedules depend only on instants.
    Only statements closed by [exact]; proofs are in Proofs/. *)
 From Coq Require Import ZArith List Bool Lia.
-From Sv Require Import PyTime Timer Job Sched Occur TimerProofs JobProofs EquivProofs BatchProofs SchedProofs AwareProofs SchedFacts.
+From Sv Require Import PyTime Timer Job Sched Occur TimerProofs JobProofs EquivProofs BatchProofs SchedProofs AwareProofs SchedFacts SimProofs.
 Import ListNotations.
 Open Scope Z_scope.
 
@@ -75,12 +75,64 @@ Proof. exact same_occ_weekly. Qed.
 Theorem C13_cyclic_instant : forall d T, utc (dt_add d T) = utc d + T.
 Proof. exact utc_dt_add. Qed.
 
+(* Job level (single and batched clock-time jobs, with or without skip_missing, with or without stop): two
+   scheduling calls that denote the same schedule - entry by entry the same recurring instants, the same
+   reference and stop instants - written in different UTC offsets, on schedulers with different timezones,
+   produce jobs that stay similar through every execution of any history whose polling instants coincide, so
+   their successive due instants are the same list (the callbacks' outcomes may even differ). *)
+Theorem C13_same_schedule_created : forall c1 c2 tz1 tz2 now j1 j2,
+  cfg_valid c1 -> cfg_valid c2 -> cfg_sim c1 c2 ->
+  utc (match c_start c1 with Some s => s | None => dt_now now tz1 end) =
+  utc (match c_start c2 with Some s => s | None => dt_now now tz2 end) ->
+  job_create c1 tz1 now = Ok j1 -> job_create c2 tz2 now = Ok j2 -> job_sim j1 j2.
+Proof. exact created_sim. Qed.
+Theorem C13_same_schedule_step : forall j1 j2 run1 run2,
+  job_sim j1 j2 -> utc (snd run1) = utc (snd run2) ->
+  aware (snd run1) = tz_aware (j_tz j1) -> aware (snd run2) = tz_aware (j_tz j2) ->
+  exists j1' j2', job_cycle j1 run1 = Ok j1' /\ job_cycle j2 run2 = Ok j2' /\ job_sim j1' j2' /\
+                  j_tz j1' = j_tz j1 /\ j_tz j2' = j_tz j2.
+Proof. exact job_cycle_sim. Qed.
+Theorem C13_same_schedule_same_instants : forall runs1 runs2 j1 j2,
+  job_sim j1 j2 ->
+  Forall2 (fun a b => utc (snd a) = utc (snd b)) runs1 runs2 ->
+  Forall (fun r => aware (snd r) = tz_aware (j_tz j1)) runs1 ->
+  Forall (fun r => aware (snd r) = tz_aware (j_tz j2)) runs2 ->
+  exists ds, dues j1 runs1 = Ok ds /\ dues j2 runs2 = Ok ds.
+Proof. exact dues_sim. Qed.
+Theorem C13_similar_jobs_agree : forall j1 j2,
+  job_sim j1 j2 -> utc (job_datetime j1) = utc (job_datetime j2) /\ has_attempts j1 = has_attempts j2.
+Proof. exact sim_agree. Qed.
+
 (* non-vacuity: Monday 23:30 -02:00 and Tuesday 06:30 +05:00 are the same weekly instants *)
 Example C13_example :
   same_occ WEEKLY (TWeekday 0 (mkTime 23 30 0 0 (Some (-7200000000)))) (TWeekday 1 (mkTime 6 30 0 0 (Some 18000000000))).
 Proof. apply same_occ_weekly; unfold valid_time, SEC; cbn; try lia; try (vm_compute; reflexivity). Qed.
 
+(* non-vacuity of the job-level statement: the same weekly schedule written for a -02:00 and for a +05:00 scheduler *)
+Example C13_same_schedule_example :
+  let c1 := mkCfg WEEKLY [TWeekday 0 (mkTime 23 30 0 0 (Some (-7200000000)))] 0 [] true None None false 1 1 [] [] [] in
+  let c2 := mkCfg WEEKLY [TWeekday 1 (mkTime 6 30 0 0 (Some 18000000000))] 0 [] true None None false 1 1 [] [] [] in
+  exists j1 j2, job_create c1 (Some (-7200000000)) 63871324200000000 = Ok j1 /\
+                job_create c2 (Some 18000000000) 63871324200000000 = Ok j2 /\ job_sim j1 j2.
+Proof.
+  cbv zeta. eexists. eexists. split; [vm_compute; reflexivity|]. split; [vm_compute; reflexivity|].
+  eapply (created_sim
+            (mkCfg WEEKLY [TWeekday 0 (mkTime 23 30 0 0 (Some (-7200000000)))] 0 [] true None None false 1 1 [] [] [])
+            (mkCfg WEEKLY [TWeekday 1 (mkTime 6 30 0 0 (Some 18000000000))] 0 [] true None None false 1 1 [] [] [])
+            (Some (-7200000000)) (Some 18000000000) 63871324200000000).
+  - repeat constructor; cbn; unfold valid_time; cbn; lia.
+  - repeat constructor; cbn; unfold valid_time; cbn; lia.
+  - unfold cfg_sim. cbn [c_type c_skip c_delay c_max_attempts c_stop c_timing standardize_timing map standardize_entry stop_sim].
+    repeat split; try discriminate. constructor; [exact C13_example|constructor].
+  - cbn [c_start]. rewrite !utc_dt_now. reflexivity.
+  - vm_compute; reflexivity.
+  - vm_compute; reflexivity.
+Qed.
+
 Print Assumptions C13_created_uniform.
+Print Assumptions C13_same_schedule_created.
+Print Assumptions C13_same_schedule_step.
+Print Assumptions C13_same_schedule_same_instants.
 Print Assumptions C13_rejection_is_scheduler_error.
 Print Assumptions C13_no_type_error_ever.
 Print Assumptions C13_offset_invariance_first.
